@@ -228,6 +228,65 @@ pub fn run(cfg: &Cfg) {
             None => sink.oracle(false, "a layout listing a supported key does not survive the wire", file),
         }
     }
+    // ---- RSA keys of every length: 49 consecutive modulus sizes (every residue of the DER length modulo the
+    //      48 bytes a line of PEM holds, every residue modulo 3 of the base64 padding), made up for the
+    //      purpose - they need not be usable for signing to be keys with a description, an id and a wire form
+    for nbytes in (256usize..=304).chain([129, 384, 432, 512, 513]) {
+        let mut modulus = r.bytes(nbytes);
+        modulus[0] |= 0x80;
+        let last = modulus.len() - 1;
+        modulus[last] |= 1;
+        let der_int = |mag: &[u8]| -> Vec<u8> {
+            let mut c = vec![];
+            if mag[0] & 0x80 != 0 {
+                c.push(0);
+            }
+            c.extend_from_slice(mag);
+            let mut out = vec![0x02];
+            if c.len() < 0x80 { out.push(c.len() as u8) } else if c.len() < 0x100 { out.extend([0x81, c.len() as u8]) } else { out.extend([0x82, (c.len() >> 8) as u8, c.len() as u8]) }
+            out.extend(c);
+            out
+        };
+        let mut body = der_int(&modulus);
+        body.extend(der_int(&[1, 0, 1]));
+        let mut pkcs1 = vec![0x30];
+        if body.len() < 0x80 { pkcs1.push(body.len() as u8) } else if body.len() < 0x100 { pkcs1.extend([0x81, body.len() as u8]) } else { pkcs1.extend([0x82, (body.len() >> 8) as u8, body.len() as u8]) }
+        pkcs1.extend(body);
+        let spki = match unhex(&model.ask(&format!("spki_enc rsa {}", hex(&pkcs1)))) {
+            Some(b) => b,
+            None => continue,
+        };
+        let replay = format!("spki_dec {}", hex(&spki));
+        let k = match guarded({ let d = spki.clone(); move || PublicKey::from_spki(&d, SignatureScheme::RsaSsaPssSha256) }) {
+            Ok(Ok(k)) => k,
+            Ok(Err(_)) => {
+                sink.stat("rsa-sizes/rejected");
+                continue;
+            }
+            Err(()) => {
+                sink.oracle(false, "importing an RSA SubjectPublicKeyInfo panicked", &replay);
+                continue;
+            }
+        };
+        sink.stat(&format!("rsa-sizes/der-length-mod-48={}", spki.len() % 48));
+        keyid_case(&mut sink, &k, "rsa-sizes");
+        sink.oracle(k.as_spki().ok().as_deref() == Some(&spki[..]), "an RSA SubjectPublicKeyInfo is not re-exported unchanged", &replay);
+        let id = keyid_hex(&k);
+        let j = serde_json::to_value(&k).unwrap();
+        match guarded({ let j2 = j.clone(); move || serde_json::from_value::<PublicKey>(j2) }) {
+            Ok(Ok(back)) => sink.oracle(keyid_hex(&back) == id && back == k, "key id or key changes in a JSON round trip", &replay),
+            _ => sink.oracle(false, "a public key does not survive its own JSON form", &replay),
+        }
+        let pem_text = pem::encode(&pem::Pem::new("PUBLIC KEY", spki.clone()));
+        match guarded({ let t2 = pem_text.clone(); move || PublicKey::from_pem_spki(&t2, SignatureScheme::RsaSsaPssSha256) }) {
+            Ok(Ok(k3)) => sink.oracle(keyid_hex(&k3) == id && k3 == k, "key or key id changes through PEM import", &replay),
+            _ => sink.oracle(false, "the PEM form of an RSA SubjectPublicKeyInfo is rejected", &replay),
+        }
+        match LayoutMetadataBuilder::new().add_key(k.clone()).build().ok().and_then(|l| serde_json::to_value(&l).ok()).and_then(|v| serde_json::from_value::<LayoutMetadata>(v).ok()) {
+            Some(l2) => sink.oracle(l2.keys.values().any(|x| *x == k), "a key is lost from the key table in a layout round trip", &replay),
+            None => sink.oracle(false, "a layout listing an RSA key does not survive the wire", &replay),
+        }
+    }
     // the (non-standard, NULL-parameter) ed25519 fixture of the repo must keep importing
     let der = std::fs::read(keys_dir().join("ed25519-1.spki.der")).unwrap();
     sink.oracle(PublicKey::from_spki(&der, SignatureScheme::Ed25519).is_ok(), "the repo's ed25519 fixture SPKI no longer imports", "ed25519-1.spki.der");
